@@ -1088,7 +1088,7 @@ func genHistory(r *Rng, guarded bool, long bool) Sx {
 func gen(r *Rng, tier string, emit func(Sx)) {
 	n := 1500
 	if tier == "thorough" {
-		n = 60000
+		n = 15000
 	}
 	for i := 0; i < n; i++ {
 		switch {
